@@ -268,16 +268,18 @@ func (s *Session) runFunc(key string, mode string) ([]*Obligation, []*Unit) {
 		u.finish()
 		if j.variant != nil {
 			// keep safety obligations and the clauses labelled with the variant's property
-			var keep []*Obligation
+			// every obligation of the variant run belongs to the variant's property
+			// (effect obligations keep C18 / C19 as well)
 			for _, o := range u.obls {
-				safety := o.Kind == "no-panic" || o.Kind == "pre@call" || o.Kind == "no-overflow" || o.Kind == "panics-iff" || o.Kind == "cover"
-				if safety || hasProp(o.Props, j.variant.Label) {
-					o.Props = []string{j.variant.Label}
-					o.Name += "@" + j.variant.Label
-					keep = append(keep, o)
+				np := []string{j.variant.Label}
+				for _, p := range []string{"C18", "C19"} {
+					if hasProp(o.Props, p) && (o.Kind == "allocs" || o.Kind == "writes" || o.Kind == "writes-nothing" || o.Kind == "reads") {
+						np = append(np, p)
+					}
 				}
+				o.Props = np
+				o.Name += "@" + j.variant.Label
 			}
-			u.obls = keep
 		}
 		again := false
 		if u.sawPoolGet {
